@@ -854,8 +854,8 @@ func c10ScratchReset(c *Ctx, rule string) {
 	scratch := ""
 	if st, ok := jn.Underlying().(*types.Struct); ok {
 		for i := 0; i < st.NumFields(); i++ {
-			if strings.HasSuffix(TypeName(st.Field(i).Type()), "buffer.Buffer") && st.Field(i).Name() != "buf" {
-				scratch = st.Field(i).Name()
+			if strings.HasSuffix(TypeName(st.Field(i).Type()), "buffer.Buffer") && FN(st.Field(i)) != "buf" {
+				scratch = FN(st.Field(i))
 			}
 		}
 	}
@@ -869,7 +869,7 @@ func c10ScratchReset(c *Ctx, rule string) {
 			if it, isI := types.Unalias(st.Field(i).Type()).Underlying().(*types.Interface); isI {
 				for k := 0; k < it.NumMethods(); k++ {
 					if it.Method(k).Name() == "Encode" {
-						reflEnc = st.Field(i).Name()
+						reflEnc = FN(st.Field(i))
 					}
 				}
 			}
